@@ -13,6 +13,8 @@ import re
 import sys
 
 REPO = os.environ.get("VERIF_REPO", "/repo")
+# on a failed extraction keep the file of the last successful one (set by the check driver; the command line writes the stub)
+KEEP_LAST_GOOD = False
 OUT = os.path.join(os.path.dirname(os.path.abspath(__file__)), "..", "coq", "Generated")
 
 
@@ -382,6 +384,21 @@ def write_if_changed(path, text):
     return True
 
 
+def _committed(path):
+    """text of the file as committed in the framework's own repository (the facts of the tree the framework was committed
+    against), or None"""
+    import subprocess
+    top = os.path.dirname(os.path.dirname(os.path.abspath(__file__)))
+    rel = os.path.relpath(os.path.abspath(path), top)
+    if rel.startswith(".."):
+        return None
+    try:
+        r = subprocess.run(["git", "-C", top, "show", "HEAD:" + rel], stdout=subprocess.PIPE, stderr=subprocess.DEVNULL, timeout=30)
+        return r.stdout.decode("utf-8") if r.returncode == 0 else None
+    except Exception:
+        return None
+
+
 def run(names=None, repo=None, out=None):
     """returns dict name -> None (ok) | reason (failed).  A failed fact file is written as an empty module
     carrying a comment, so that dependants fail to compile at the missing definition."""
@@ -401,6 +418,17 @@ def run(names=None, repo=None, out=None):
         except FactError as e:
             text = "(* GENERATED: extraction FAILED: %s *)\n" % str(e).replace("*)", "* )")
             res[n] = str(e)
+            # the caller reports the failed extraction (the tie of every property that depends on this file is broken).  The
+            # file of the last successful extraction -- the committed one after a fresh restore -- is left in place, so that the
+            # models still build and the search for a concrete failing input can use them.
+            prev = os.path.join(OUT, n + ".v")
+            if KEEP_LAST_GOOD:
+                good = _committed(prev)
+                if good is None and os.path.exists(prev):
+                    good = open(prev, encoding="utf-8").read()
+                if good is not None and not good.startswith("(* GENERATED: extraction FAILED"):
+                    write_if_changed(prev, good)
+                    continue
         write_if_changed(os.path.join(OUT, n + ".v"), text)
     return res
 
